@@ -241,13 +241,21 @@ func rdReplay(raw json.RawMessage, idx int, tr *traceWriter) {
 	renderer := flamego.Renderer(optSlice...)
 	optSlice[0] = flamego.RenderOptions{Charset: "reused", JSONIndent: "\t\t\t", XMLIndent: "\t\t\t"}
 	_ = flamego.Renderer(optSlice...)
+	// a later handler of the same chain that would add to the body: rendering began the response, it never runs
+	tail := func(fc flamego.Context) { _, _ = fc.ResponseWriter().Write([]byte("<TAIL: a handler ran after the response was rendered>")) }
+	if (c.VSeed/1024)%3 == 0 {
+		// ... also when a middleware in front has mapped a response writer of its own as http.ResponseWriter
+		f.Use(func(fc flamego.Context) {
+			fc.MapTo(flamego.NewResponseWriter(fc.Request().Method, fc.ResponseWriter()), (*http.ResponseWriter)(nil))
+		})
+	}
 	if c.Pos == "after" {
 		f.Use(renderer, pad)
 		f.Get("/sub", func(r flamego.Render) { r.PlainText(203, "sub-request") })
-		f.Routes("/", "GET,HEAD", pad, user)
+		f.Routes("/", "GET,HEAD", pad, user, tail)
 	} else {
 		f.Use(user, renderer)
-		f.Routes("/", "GET,HEAD", pad)
+		f.Routes("/", "GET,HEAD", pad, tail)
 	}
 	if c.HeadFirst == 2 {
 		// whatever a HEAD response leaves behind (buffers, encoders) must not show in the next response
